@@ -82,6 +82,9 @@ class Check:
     # ---- accounting -----------------------------------------------------------------------
     def add_tlc(self, res_or_stats, label=None):
         if isinstance(res_or_stats, dict):
+            for what, (n, first) in sorted(res_or_stats.get("drift", {}).items()):
+                self.drift_note("%s: %s in %d record(s) (implementation differs from the implementation-shaped part of the model; "
+                                "the property part holds), first record #%d" % (label or "trace", what, n, first))
             self.states += res_or_stats.get("states", 0)
             self.transitions += res_or_stats.get("transitions", 0)
             for c in res_or_stats.get("cmds", []):
